@@ -79,7 +79,15 @@ def rows_of(t, nr):
     return SV('rowlist', zi(nr), doms=K(IntSort(), t.dom), vals=Lambda([j], Lambda([c], Select(Select(t.carr, c), j))))
 
 
+def rl_absent(rl, j):
+    """what record j's own get(k) returns for a key it does not have: None for a Dict; for a table taken as a record of columns it is
+    [None] * len(table) (dictable.get)"""
+    return Select(rl.f['absent'], j) if rl.f.get('absent') is not None else NONEV
+
+
 def rl_at(rl, j):
+    if rl.f.get('absent') is not None:
+        return rowmap(Select(rl.doms, j), Select(rl.vals, j), absent=Select(rl.f['absent'], j))
     return rowmap(Select(rl.doms, j), Select(rl.vals, j))
 
 
@@ -126,7 +134,7 @@ def records_contract(rl, out):
                 ForAll([k], Select(out.dom, k) == Exists([j2], And(0 <= j2, j2 < n, Select(Select(rl.doms, j2), k)))),
                 ForAll([k], Implies(Select(out.dom, k), out.clen[k] == n)),
                 ForAll([k, j], Implies(And(Select(out.dom, k), 0 <= j, j < n),
-                                       out.carr[k][j] == If(Select(Select(rl.doms, j), k), Select(Select(rl.vals, j), k), NONEV)))))]
+                                       out.carr[k][j] == If(Select(Select(rl.doms, j), k), Select(Select(rl.vals, j), k), rl_absent(rl, j))))))]
 
 
 def mask_contract(t, n, marr, out):
@@ -174,6 +182,8 @@ class Rows:
 
     # ---- calls
     def call(self, ex, st, e, fname, args, kwargs):
+        if fname in st.env and st.env[fname].kind == 'cls':           # cls(...) inside a classmethod
+            return self.call_value(ex, st, e, st.env[fname], args, kwargs)
         if fname == 'type' and len(args) == 1 and args[0].kind == 'table':
             return CLS(args[0].f.get('cls') or 'dictable')
         if fname == 'list' and len(args) == 1 and args[0].kind == 'table' and self.iter_contract:
@@ -211,6 +221,13 @@ class Rows:
         return SV('lazylist', None, n=n, at=lambda st2, j: T([el(a, j), el(b, j)]))
 
     def pre_call(self, ex, st, e):
+        # isinstance(x, cls) inside a classmethod
+        if isinstance(e.func, ast.Name) and e.func.id == 'isinstance' and len(e.args) == 2 and isinstance(e.args[1], ast.Name) \
+                and e.args[1].id in st.env and st.env[e.args[1].id].kind == 'cls':
+            v = ex.eval(st, e.args[0])
+            if v.kind == 'val':
+                return NotImplemented
+            return B(v.kind == 'table')
         # zip(*self.values()): the transposition of the columns
         if isinstance(e.func, ast.Name) and e.func.id == 'zip' and len(e.args) == 1 and isinstance(e.args[0], ast.Starred) and not e.keywords:
             probe = st.fork()
@@ -252,6 +269,8 @@ class Rows:
             return args[0].f['row']
         if recv.kind == 'rowmap' and mname == 'keys' and not args:
             return SV('rkeys', None, dom=recv.dom)
+        if recv.kind == 'table' and mname == 'concat' and 'dictable.concat' in ex.inline:
+            return ex.call_inline_expr(st, 'dictable.concat', [CLS(recv.f.get('cls') or 'dictable')] + list(args), kwargs)     # a classmethod called on an instance
         return NotImplemented
 
     def call_value(self, ex, st, e, fn, args, kwargs):
@@ -332,6 +351,8 @@ class Rows:
             rl, v = a
             if rl.kind != 'rowlist' or v.kind != 'rowmap':
                 return NotImplemented
+            if v.f.get('absent') is not None or rl.f.get('absent') is not None:
+                raise OutOfSubset('appending table-valued records')
             return SV('rowlist', rl.t + 1, doms=Store(rl.doms, rl.t, v.dom), vals=Store(rl.vals, rl.t, v.vals))
         return NotImplemented
 
@@ -360,7 +381,7 @@ class Rows:
         return NotImplemented
 
     def is_none(self, ex, st, v):
-        if v.kind in ('rowlist', 'rowmap', 'colmap', 'cls', 'tkeys', 'tvalues'):
+        if v.kind in ('rowlist', 'rowmap', 'colmap', 'cls', 'tkeys', 'tvalues', 'table'):
             return BoolVal(False)
         return NotImplemented
 
@@ -504,8 +525,8 @@ class Init:
             if mname == 'items' and not args:
                 return SV('rmitems', None, of=recv)
             if mname == 'get' and len(args) == 1 and args[0].kind == 'key':
-                ex.use('axiom:d.get(k) is d[k] for a key of d and None otherwise')
-                return V(If(Select(recv.dom, args[0].t), Select(recv.vals, args[0].t), NONEV))
+                ex.use('axiom:d.get(k) is d[k] for a key of d; otherwise None for a Dict and [None] * len(d) for a table (dictable.get, proved in C01 get.*)')
+                return V(If(Select(recv.dom, args[0].t), Select(recv.vals, args[0].t), recv.f.get('absent', NONEV)))
         if recv.kind == 'super' and mname == '__init__' and len(args) == 1 and args[0].kind == 'colmap':
             t = recv.f['of']
             if not t.f.get('fresh') or not recv.f.get('name'):
@@ -736,6 +757,93 @@ class Slices:
             for l in ls:
                 arrs += l.arrs
             return SV('list', ls[0].t, ety=TUP(*[l.ety for l in ls]), arrs=arrs)
+        return NotImplemented
+
+
+# ================================================================================================ concat: tables as records of columns
+MKCOL = Function('list_value', IntSort(), ArraySort(IntSort(), Val), Val)      # a python list (length, content) as one opaque cell value
+VLEN = Function('len_of_list_value', Val, IntSort())
+VARR = Function('items_of_list_value', Val, ArraySort(IntSort(), Val))
+
+
+def list_value_axioms():
+    n = Int('n!lv')
+    a = Const('a!lv', ArraySort(IntSort(), Val))
+    return [ForAll([n, a], And(VLEN(MKCOL(n, a)) == n, VARR(MKCOL(n, a)) == a), patterns=[MKCOL(n, a)])]
+
+
+def records_of_tables(ex, tables, counts):
+    """the list [t_0, t_1, ...] (known one by one) seen as a list of records whose cells are whole columns; a missing key reads as
+    [None] * len(t_j) - what dictable.get returns"""
+    k = Const('k!rt', Key)
+    doms = Array(fresh_name('tdoms'), IntSort(), KB)
+    vals = Array(fresh_name('tvals'), IntSort(), KV)
+    absent = Array(fresh_name('tabsent'), IntSort(), Val)
+    for j, (t, nr) in enumerate(zip(tables, counts)):
+        cells = Array(fresh_name('tcells%d' % j), Key, Val)             # named array + defining fact instead of a lambda: keeps the grounded query first order
+        ex.fact(ForAll([k], Select(cells, k) == MKCOL(Select(t.clen, k), Select(t.carr, k))))
+        doms = Store(doms, j, t.dom)
+        vals = Store(vals, j, cells)
+        absent = Store(absent, j, MKCOL(nr, K(IntSort(), NONEV)))
+    return SV('rowlist', IntVal(len(tables)), doms=doms, vals=vals, absent=absent)
+
+
+class Concats:
+    """dictable.concat on tables known one by one (d1 + d2): list(tuple), the comprehension over it, dict_concat of tables by its contract (a table
+    read as a record of columns), sum([xs, ys], [])"""
+
+    def __init__(self, rows):
+        self.rows = rows
+
+    def call(self, ex, st, e, fname, args, kwargs):
+        a0 = args[0] if args else None
+        if fname == 'list' and len(args) == 1 and a0.kind == 'tuple':
+            ex.use('axiom:list(tuple) has the elements of the tuple in order')
+            return SV('lazylist', None, n=IntVal(len(a0.items)), items=list(a0.items), at=None)
+        if fname == 'dict_concat' and len(args) == 1 and a0.kind == 'lazylist' and a0.f.get('items') and all(x.kind == 'table' for x in a0.f['items']):
+            ex.use('callee contract:dict_concat(records) maps every key of some record to the list of record.get(key), in order (proved in C01 dict_concat.*); '
+                   'a table is a record whose cells are its columns and whose get(k) for an absent k is [None] * len (dictable.get, proved in C01 get.*)')
+            for f in list_value_axioms():
+                ex.fact(f)
+            rl = records_of_tables(ex, a0.f['items'], [self.rows.rows_n(t) for t in a0.f['items']])
+            out = fresh_colmap('concat')
+            for f in records_contract(rl, out):
+                ex.fact(f)
+            out.f['cells'] = 'lists'
+            return out
+        if fname == 'sum' and len(args) == 2 and a0.kind == 'list' and a0.f.get('ety') == VAL and args[1].kind == 'list' and args[1].f.get('ety') is None:
+            ex.use('axiom:sum([xs, ys], []) is xs + ys (stated for exactly two lists)')
+            ex.oblige(st, 'sum.of_exactly_two_lists', a0.t == 2, kind='pre')
+            c0, c1 = Select(a0.arrs[0], 0), Select(a0.arrs[0], 1)
+            j = Int(fresh_name('j!sum'))
+            return SV('list', VLEN(c0) + VLEN(c1), ety=VAL, arrs=[Lambda([j], If(j < VLEN(c0), Select(VARR(c0), j), Select(VARR(c1), j - VLEN(c0))))])
+        return NotImplemented
+
+    def listcomp(self, ex, st, e):
+        if len(e.generators) != 1 or e.generators[0].ifs or e.generators[0].is_async:
+            return NotImplemented
+        g = e.generators[0]
+        probe = st.fork()
+        try:
+            it = ex.eval(probe, g.iter)
+        except OutOfSubset:
+            return NotImplemented
+        if it.kind != 'lazylist' or not it.f.get('items') or probe.pending:
+            return NotImplemented
+        out = []
+        for x in it.f['items']:
+            sub = st.fork(); sub.env = dict(st.env); sub.guards = list(st.guards); sub.pending = []
+            ex.assign(sub, g.target, x, None)
+            out.append(ex.eval(sub, e.elt))
+            st.pending.extend(sub.pending)
+            st.pc = sub.pc
+        return SV('lazylist', None, n=IntVal(len(out)), items=out, at=None)
+
+    def subscript(self, ex, st, e, recv, idx):
+        if recv.kind == 'lazylist' and recv.f.get('items') and idx.kind == 'int':
+            s = simplify(idx.t)
+            if z3.is_int_value(s) and 0 <= s.as_long() < len(recv.f['items']):
+                return recv.f['items'][s.as_long()]
         return NotImplemented
 
 
